@@ -498,6 +498,11 @@ func Tpl(tag string) corev1.PodTemplateSpec {
 		kv := strings.SplitN(tag[i+len("+label:"):], "=", 2)
 		t.Labels[kv[0]] = kv[1]
 	}
+	// "X+notname:<node>" : template X whose required node affinity excludes a node by name (metadata.name NotIn)
+	if i := strings.Index(tag, "+notname:"); i > 0 {
+		t.Spec.Affinity = &corev1.Affinity{NodeAffinity: &corev1.NodeAffinity{RequiredDuringSchedulingIgnoredDuringExecution: &corev1.NodeSelector{
+			NodeSelectorTerms: []corev1.NodeSelectorTerm{{MatchFields: []corev1.NodeSelectorRequirement{{Key: "metadata.name", Operator: corev1.NodeSelectorOpNotIn, Values: []string{tag[i+len("+notname:"):]}}}}}}}}
+	}
 	return t
 }
 
